@@ -23,7 +23,17 @@ RoundTrip == st.lvl = 1 =>
     LET bs == TSer(Sample, st.sty)
         r == TParse(<<9>> \o bs \o <<7, 7>>, 2)
     IN r.ok /\ r.v = Sample /\ r.p = Len(bs) + 2
+\* the native-integer fast paths agree with the limb-wise definitions
+FastWords == { FromNat(n, 8) : n \in {0, 1, 63, 64, 8191, 8192, 1073741823, 1073741824, 2147483647} }
+             \cup { Neg(FromNat(n, 8)) : n \in {1, 64, 65, 1073741823, 1073741824, 1073741825, 2147483647} }
+             \cup { <<0,0,0,128,0,0,0,0>>, <<0,0,0,0,0,0,0,128>>, <<255,255,255,255,255,255,255,127>>, <<0,0,0,0,1,0,0,0>> }
+FastPaths == \A w \in FastWords :
+                /\ ZzWord(w) = ZzWordSlow(w)
+                /\ ZzParse(ZzWord(w), 1) = ZzParseSlow(ZzWord(w), 1)
+                /\ ZzParse(ZzWord(w), 1).v = w
+                /\ ZzParse(PadVar(ZzWord(w)), 1) = ZzParseSlow(PadVar(ZzWord(w)), 1)
 Vectors ==
+    /\ FastPaths
     /\ TSer(Struct(<<F(1, I(1))>>), DefaultStyle) = <<21, 2, 0>>
     /\ TSer(Struct(<<F(1, Bool(TRUE)), F(2, Bool(FALSE))>>), DefaultStyle) = <<17, 18, 0>>
     /\ TSer(Struct(<<F(16, I(0))>>), DefaultStyle) = <<5, 32, 0, 0>>
